@@ -21,9 +21,14 @@ GetHeadersOk(e) ==
      /\ (e.count > 0 => (e.first = want[1] /\ e.linked /\ e.allLongest))
      /\ e.count <= e.cap
 
+\* {ev:"ancestors", a, b, code, count, lo, hi, linked}: two longest-chain headers of heights a > b >= 1 on a chain whose
+\* longest-chain header of height h has id h.  Chain.tla: Ancestors(a, b) = PathDown(a, b) = <<a, a-1, ..., b>> (C04)
+AncestorsOk(e) == e.code = 200 /\ e.count = e.a - e.b + 1 /\ e.lo = e.b /\ e.hi = e.a /\ e.linked
+
 Step == /\ l <= Len(TraceLog)
         /\ CASE Ev.ev = "locator"    -> LocatorOk(Ev)
              [] Ev.ev = "getheaders" -> GetHeadersOk(Ev)
+             [] Ev.ev = "ancestors"  -> AncestorsOk(Ev)
              [] OTHER -> FALSE
         /\ l' = l + 1
 TraceSpec == l = 1 /\ [][Step]_l
